@@ -54,6 +54,8 @@ type Contract struct {
 	KeepPre   bool // with nosafety: callee preconditions are still checked
 	AllocBound string
 	InlineDepth int
+	Closure     int     // >0: contract on the n-th function literal of the named function (verify-only)
+	ClosureVars []Param // its captured variables, by name, as the clauses see them
 	Case      string // label of a case contract (extra contract on a function, verify-only)
 	InlineCalls []string // callees (name suffixes) executed by their bodies although they have a contract
 	HasMod    bool
@@ -98,7 +100,7 @@ func (c *Contract) HasProp(p string) bool {
 // Thorough: the thorough tier is running (clauses labelled [...@thorough] are included).
 var Thorough bool
 
-var kwRe = regexp.MustCompile(`^(prop|func|lemma|case|inline-calls|requires|ensures|modifies|preserves|callees-preserve|alloc-bound|nosafety|inline-depth|may-panic|maybe-nil|inline|trusted|noverify|sweep|loop|invariant|exit-assume|unroll|iface)\b(\[[A-Za-z0-9_\-\.@]+\])?\s*(.*)$`)
+var kwRe = regexp.MustCompile(`^(prop|func|lemma|case|closure|vars|inline-calls|requires|ensures|modifies|preserves|callees-preserve|alloc-bound|nosafety|inline-depth|may-panic|maybe-nil|inline|trusted|noverify|sweep|loop|invariant|exit-assume|unroll|iface)\b(\[[A-Za-z0-9_\-\.@]+\])?\s*(.*)$`)
 
 // ParseContractFile extracts //@ blocks from one Go file.
 func ParseContractFile(path, pkgPath string) ([]*Contract, error) {
@@ -126,7 +128,29 @@ func ParseContractFile(path, pkgPath string) ([]*Contract, error) {
 		case "prop":
 			props = strings.Fields(p.text)
 			return nil
-		case "func", "lemma", "iface", "case":
+		case "vars":
+			// closure contracts: the captured variables the clauses mention, e.g. vars (c *callEngine, err error)
+			h, err := parseHeader("func v" + strings.TrimSpace(p.text))
+			if err != nil {
+				return fmt.Errorf("%s:%d: bad vars clause: %v", path, p.line, err)
+			}
+			cur.ClosureVars = h.Params
+		case "func", "lemma", "iface", "case", "closure":
+			closureOrd := 0
+			if p.kw == "closure" {
+				// closure <n> (recv) f(params) results: the n-th function literal of f (source order)
+				t := strings.TrimSpace(p.text)
+				i := strings.IndexAny(t, " \t")
+				if i < 0 {
+					return fmt.Errorf("%s:%d: closure needs an ordinal and the enclosing function's header", path, p.line)
+				}
+				n, err := strconv.Atoi(t[:i])
+				if err != nil || n < 1 {
+					return fmt.Errorf("%s:%d: bad closure ordinal", path, p.line)
+				}
+				closureOrd = n
+				p.text = strings.TrimSpace(t[i:])
+			}
 			caseLabel := ""
 			if p.kw == "case" {
 				// case <label> (recv) name(params) results: one more contract on the same function,
@@ -151,6 +175,10 @@ func ParseContractFile(path, pkgPath string) ([]*Contract, error) {
 			c.Lemma = p.kw == "lemma"
 			c.RecvIface = p.kw == "iface"
 			c.Case = caseLabel
+			c.Closure = closureOrd
+			if closureOrd > 0 {
+				c.Case = fmt.Sprintf("closure%d", closureOrd)
+			}
 			cur = c
 			curLoop = nil
 			out = append(out, c)
@@ -695,6 +723,25 @@ func paramDecl(ps []Param) string {
 func (c *Contract) Generate() (string, error) {
 	if c.Lemma {
 		return "", nil // a lemma is an ordinary ghost function in the contract file, run as is
+	}
+	if c.Closure > 0 {
+		var b strings.Builder
+		fmt.Fprintf(&b, "\n// closure contract %s (%s:%d)\n", c.Display(), filepath.Base(c.File), c.Line)
+		for k, cl := range c.Requires {
+			rw := &rewriter{noHoist: true}
+			fmt.Fprintf(&b, "func verif_Q_%d_r%d(%s) bool { return %s }\n", c.ID, k, paramDecl(c.ClosureVars), rw.rewrite(cl.Expr, false))
+			if rw.err != nil {
+				return "", fmt.Errorf("%s: %v", c.Display(), rw.err)
+			}
+		}
+		for k, cl := range c.Ensures {
+			rw := &rewriter{noHoist: true}
+			fmt.Fprintf(&b, "func verif_Q_%d_e%d(%s) bool { return %s }\n", c.ID, k, paramDecl(c.ClosureVars), rw.rewrite(cl.Expr, false))
+			if rw.err != nil {
+				return "", fmt.Errorf("%s: %v", c.Display(), rw.err)
+			}
+		}
+		return b.String(), nil
 	}
 	var b strings.Builder
 	c.HarnessName = fmt.Sprintf("verif_C_%d", c.ID)
